@@ -61,15 +61,26 @@ func coinsAllGE0(a *Term) *Term {
 }
 
 // bankTransfer: err fresh; on success amounts move from -> to, else unchanged.
-func bankTransfer(c *LibCtx, from, to *Term, amt *Val, extraFail *Term) *Val {
+func bankTransfer(c *LibCtx, from, to *Term, amt *Val, extraFail *Term, fromModule ...bool) *Val {
 	err := freshErr(c, "bankerr")
 	ok := Eq(err.Tag, Num(0))
 	bal := ghostT(c.st, "bal")
 	// success requires sufficient (spendable <= total) balance
 	d := Bound("d", SStr)
-	c.st.Assume(Implies(ok, Forall([]*Term{d}, Ge(Select(Select(bal, from), d), Select(amt.T, d)), []*Term{Select(Select(bal, from), d)})))
+	sufficient := Forall([]*Term{d}, Ge(Select(Select(bal, from), d), Select(amt.T, d)), []*Term{Select(Select(bal, from), d)})
+	c.st.Assume(Implies(ok, sufficient))
 	if extraFail != nil {
 		c.st.Assume(Implies(extraFail, Not(ok)))
+	}
+	if len(fromModule) > 0 && fromModule[0] {
+		// a module account is never a vesting account, so everything it holds is spendable: SendCoins fails only on an
+		// invalid amount, an insufficient balance, or (module-to-account) a blocked recipient (x/bank v0.46.10 send.go)
+		cond := And(coinsAllGE0(amt.T), sufficient)
+		if extraFail != nil {
+			cond = And(cond, Not(extraFail))
+		}
+		c.st.Assume(Implies(cond, ok))
+		c.st.Assume(Forall([]*Term{d}, Ge(Select(Select(bal, from), d), Num(0)), []*Term{Select(Select(bal, from), d)}))
 	}
 	nf := coinsPointwise(c, "from", func(d *Term) *Term { return Sub(Select(Select(bal, from), d), Select(amt.T, d)) })
 	b1 := Store(bal, from, nf)
@@ -380,8 +391,14 @@ func init() {
 		c.panicIf(Not(UF("hasPerm", []string{SStr, SStr}, SBool, mod.T, strLit("minter"))), "MintCoins-module-without-minter-permission")
 		err := freshErr(c, "minterr")
 		ok := Eq(err.Tag, Num(0))
+		// addCoins fails only on an invalid (here: negative) amount; balances are never negative (x/bank v0.46.10 keeper.go)
+		c.st.Assume(Eq(ok, coinsAllGE0(amt.T)))
 		bal, sup := ghostT(c.st, "bal"), ghostT(c.st, "supply")
 		addr := modAddr(mod.T)
+		{
+			dd := Bound("d", SStr)
+			c.st.Assume(Forall([]*Term{dd}, Ge(Select(Select(bal, addr), dd), Num(0)), []*Term{Select(Select(bal, addr), dd)}))
+		}
 		nb := coinsPointwise(c, "minted", func(d *Term) *Term { return Add(Select(Select(bal, addr), d), Select(amt.T, d)) })
 		ns := coinsPointwise(c, "supply", func(d *Term) *Term { return Add(Select(sup, d), Select(amt.T, d)) })
 		b2, s2 := Const(freshName("bal"), bal.Sort), Const(freshName("supply"), sup.Sort)
@@ -412,11 +429,11 @@ func init() {
 		// panics if either module account does not exist
 		c.panicIf(Not(moduleExists(a[2].T)), "SendCoinsFromModuleToModule-unknown-sender-module")
 		c.panicIf(Not(moduleExists(a[3].T)), "SendCoinsFromModuleToModule-unknown-recipient-module")
-		return bankTransfer(c, modAddr(a[2].T), modAddr(a[3].T), a[4], nil)
+		return bankTransfer(c, modAddr(a[2].T), modAddr(a[3].T), a[4], nil, true)
 	})
 	reg(B+"SendCoinsFromModuleToAccount", func(c *LibCtx, a []*Val) *Val {
 		c.panicIf(Not(moduleExists(a[2].T)), "SendCoinsFromModuleToAccount-unknown-sender-module")
-		return bankTransfer(c, modAddr(a[2].T), a[3].T, a[4], Select(ghostT(c.st, "blocked"), a[3].T))
+		return bankTransfer(c, modAddr(a[2].T), a[3].T, a[4], Select(ghostT(c.st, "blocked"), a[3].T), true)
 	})
 	reg(B+"SendCoinsFromAccountToModule", func(c *LibCtx, a []*Val) *Val {
 		c.panicIf(Not(moduleExists(a[3].T)), "SendCoinsFromAccountToModule-unknown-recipient-module")
